@@ -28,8 +28,8 @@ type jobHist struct {
 	// token still belongs to the former incarnation's change log (a fullsync job does not read by it)
 	srcRecreated bool
 	chk          *server.VCheck
-	viol       []engine.Violation
-	last       string
+	viol         []engine.Violation
+	last         string
 	// a source write that lands during a run (op runw)
 	midWrite     server.VOp
 	midWriteDone bool
